@@ -1,4 +1,5 @@
 import GrassProofs.Lemmas.SerializeRead
+import GrassProofs.Lemmas.SerializeReadTree
 /-
   C06 — Output style changes only formatting, never meaning or evaluation.
 
@@ -8,8 +9,8 @@ import GrassProofs.Lemmas.SerializeRead
   Full statement (kept visible):
     for every stylesheet, canon (read (compile .compressed src)) = canon (read (compile .expanded src)),
     and every SassScript-visible value is the same in both runs.
-  Proved here for the model: comment retention, absence of a style parameter in evaluation, and (partial)
-  the read-back equality for declaration-only trees.  Number / colour spelling equivalences belong to
+  Proved here for the model: comment retention, absence of a style parameter in evaluation, and the
+  read-back equality of both styles for the whole serialised subset (C06_style_equiv_model).  Number / colour spelling equivalences belong to
   C07 / C15 (values are opaque text in this model); SassScript visibility is checked on grass directly.
 -/
 namespace Grass.Serialize
@@ -39,23 +40,37 @@ theorem C06_eval_style_free {Src : Type} (eval : Src → List Stmt) (src : Src) 
     ∀ st : Style, ∃ t, t = eval src ∧ serialize st cs t = serialize st cs (eval src) :=
   fun _ => ⟨eval src, rfl, rfl⟩
 
-/-- Full statement of the model-level style equivalence (kept visible; not proved in general):
-    reading back both serialisations of ANY guarded tree gives the same canonical rule list, for a
-    reader that is a left inverse of the printer.  `CssRead` (`readCss`) so far covers
-    declaration-only trees, for which this is proved below. -/
-def C06_style_equiv_model_full : Prop :=
-  ∃ (Rules : Type) (read : Str → Option Rules) (canon : List Stmt → Rules),
-    ∀ (t : List Stmt), treeOk .expanded t = true → treeOk .compressed t = true →
-      read (serialize .compressed false t) = some (canon t) ∧
-      read (serialize .expanded false t) = some (canon t)
+/-- Style equivalence of the model at full strength: for every tree of the serialised subset that
+    satisfies the style-free guard `treeG`, reading the compressed and the expanded serialisation
+    gives the SAME canonical tree (same at-rules and rules in the same order, same selectors,
+    declarations, values and kept comments) — non-`/*!` comments, optional semicolons, indentation,
+    blank lines and the optional spaces after `,` `:` and around combinators / `/` are the only
+    differences, and they are not in the canonical tree.
+    Guards: `treeG t` (opaque pieces flat, unquoted atoms not starting with `*`, headers not starting
+    with whitespace or `/`, comment tokens; quoted strings unconstrained) and no BOM/`@charset` at
+    the start of the body.  The canonical text is coarse: ALL spaces/newlines outside strings and
+    comments are dropped (see `sq`), so it does not distinguish `a b` from `ab`; the finer comparison
+    is done on grass's output by the Python canonicaliser. -/
+theorem C06_style_equiv_model (cs cs' : Bool) (t : List Stmt) (h : treeG t = true)
+    (hc : hasCharsetOrBom (serialize .compressed false t) = false)
+    (he : hasCharsetOrBom (serialize .expanded false t) = false) :
+    readTree (serialize .compressed cs t) = readTree (serialize .expanded cs' t) ∧
+    readTree (serialize .expanded cs' t) = some (canonTop .expanded t) := by
+  rw [readTree_serialize .compressed cs t (treeG_readable _ t h) hc,
+    readTree_serialize .expanded cs' t (treeG_readable _ t h) he, treeG_canon t h]
+  exact ⟨rfl, rfl⟩
 
-/-- PARTIAL (declaration-only trees: a list of style rules, each with one compound selector and
-    declarations whose names and values are single CSS words — `SRule.ok`): the reader `readCss`
-    returns exactly the rule list of the tree from BOTH serialisations (print → read round trip),
-    so expanded and compressed output describe the same rules, declarations and values.
-    Missing for the full statement: at-rules, comments, selector lists / combinators, quoted strings
-    and lists in values (the reader does not parse them yet). -/
-theorem C06_style_equiv_model_partial (t : List SRule) (h : t.all SRule.ok = true) :
+example : treeG
+    [.rule true [⟨false, [.compound [.text ['a']], .comb '>', .compound [.text ['b']]]⟩, ⟨false, [.compound [.placeholder ['p']]]⟩]
+      (.cons (.decl ['k'] false (.list .slash [.quoted ['{', ';'], .raw ['v'], .raw []]))
+        (.cons (.comment ['/', '*', ' ', 'x', ' ', '*', '/'] 2) .nil)),
+     .unknown false ['f'] [] false .nil] = true := by decide +kernel
+
+/-- The earlier, exact reader for declaration-only trees (a list of style rules, each with one
+    compound selector and declarations whose names and values are single CSS words — `SRule.ok`):
+    `readCss` returns the rule list of the tree verbatim (no squeezing needed: words contain no
+    whitespace) from BOTH serialisations.  Kept because its canonical form is exact. -/
+theorem C06_decl_only_exact_readback (t : List SRule) (h : t.all SRule.ok = true) :
     readCss (serialize .compressed false (t.map SRule.toStmt)) =
       readCss (serialize .expanded false (t.map SRule.toStmt)) ∧
     readCss (serialize .expanded false (t.map SRule.toStmt)) = some (rulesOf t) := by
